@@ -43,8 +43,8 @@ CHECKS = {
               "operations in several contexts, dropped/duplicated/reordered stores, a store performed twice against that store plus a "
               "different one - and on (block, block); every pair it accepts must be accepted by the proved Lean validator "
               "(equiv_norm3_sound) or survive execution in the Lean EVM on boundary states; it must accept every analysable block against "
-              "itself and never raise. The comparison of stores and dependences (compare_storage_userdef_ins, compare_dependences) has no "
-              "model: validated only. Reading it for a model exposed a genuine defect (matching not one-to-one, fixed)."),
+              "itself and never raise. compare_storage_userdef_ins is modelled as well (matchAll_spec: an accepted matching is one-to-one) and "
+              "compared decision by decision; compare_dependences has no model: validated only. Reading it for a model exposed a genuine defect (matching not one-to-one, fixed)."),
         design_ref="DESIGN.md section 8, C05",
         technique="Lean soundness theorem about a model of the checker's term comparison + exact correspondence of its decisions; mutation pairs judged by the Lean-proved equivalence validator and the Lean EVM; reflexivity and exception behaviour of the real checker",
     ),
